@@ -46,8 +46,8 @@ def specs(tier):
     s2 = kprop.KSpec(
         package="sophia_turtle", crate_dir="turtle",
         harness_files={"turtle": [os.path.join(H, "turtle", "c03_common.rs"), os.path.join(H, "turtle", "c03_escape.rs")]},
-        harnesses=[Harness("c16_quoted_string_rec", unwind=8, unwindset=[(QS["c16_quoted_string_rec"][0], 1, "rec"), (r"serializer::nt::", 1, "rec")],
-                           oracle_unwind=True, timeout=cap, note="4 symbolic bytes (valid UTF-8), recursion bound 1 on quoted_string")],
+        harnesses=[Harness("c16_quoted_string_rec", unwind=6, unwindset=[(QS["c16_quoted_string_rec"][0], 1, "rec"), (r"serializer::nt::", 1, "rec")],
+                           oracle_unwind=True, timeout=max(cap, 900), note="4 symbolic bytes (valid UTF-8), recursion bound 1 on quoted_string")],
         jobs=2,
         encoded=["sophia_turtle::serializer::nt::quoted_string"],
         bounds=["4 symbolic bytes of valid UTF-8, per-function recursion bound 1"],
@@ -81,7 +81,7 @@ def run(ctx):
             outcome = {}
             # which position's rejection makes the function recurse is not known: try every residual position
             if s == "nt_quoted_string":
-                variants = [s]
+                variants = [s + ":" + c for c in "nrqb"]   # LF, CR, quote, backslash
             elif s.endswith("_spo"):
                 variants = [s + ":" + p for p in "spo"]
             elif s.endswith("_bc") or s.endswith("_cd"):
